@@ -462,6 +462,11 @@ def gen_case(rng, k):
             n, m = int(rng.integers(1, 7)), int(rng.integers(1, 7))
     Sa, sa = gen_spd(rng, n)
     Sy, sy = gen_spd(rng, m)
+    if k in (8, 9, 10, 19):
+        # the large corners in another physical unit (mixing ratios, radiances in W): well-conditioned matrices whose
+        # DETERMINANT under- or overflows in binary64 (30 variances of 1e-12 multiply to 1e-360)
+        ua, uy = {8: (1e-6, 1e-5), 9: (2e5, 1e4), 10: (1e-6, 1e4), 19: (3e-7, 3e-6)}[k]
+        Sa, sa, Sy, sy = Sa * ua ** 2, sa * ua, Sy * uy ** 2, sy * uy
     K, kind = gen_jacobian(rng, m, n, sa, sy)
     xa = rng.integers(-5, 6, size=n).astype(float) * float(rng.choice([1.0, 0.25, 16.0]))
     x = xa + rng.normal(size=n) * sa
